@@ -4,7 +4,7 @@ from vlib import core, kexec, pool, net, refksi as R, refserver as S, gen
 
 LEVEL = 'exploration'
 
-HONEST = ('honest', 'honest-chunked', 'honest-no-cal', 'honest-extra-noncritical')
+HONEST = ('honest', 'honest-chunked', 'honest-no-cal', 'honest-extra-noncritical', 'honest-chains-top-down')
 DEVIATIONS = ('prev-id', 'id-plus-2^32', 'other-hash', 'other-level', 'status-nonzero', 'status-nonzero-with-chains', 'error-pdu', 'truncated', 'garbled',
               'bad-mac', 'other-mac-alg', 'other-key-valid-mac', 'other-pdu-version', 'inconsistent-chains', 'no-chains', 'http-500', 'transport-error',
               'no-mac', 'no-header', 'empty-body', 'two-pdus-first-foreign', 'config-only')
@@ -82,6 +82,10 @@ class Server:
                 if len(rs.chains) == 1:
                     rs.cal = rs.cal or None
                     rs.chains[0].index[-1] ^= 1
+        if b == 'honest-chains-top-down' and rs is not None:
+            rs.chains = rs.chains[::-1]      # the reply lists the aggregation chains from the top of the tree down to the document: order in the PDU carries no meaning
+            self.expected = copy.deepcopy(s)      # (the returned signature keeps the elements in the order they were received)
+            self.expected.chains = self.expected.chains[::-1]
         kw = {}
         rid = req['req_id']
         status = 0
@@ -286,6 +290,10 @@ def run_worker(job, r):
                 r.viol('async:%s:foreign-handle' % transport, 'handle with tag %s returned for request %s' % (q.get('tag'), tag), '')
             rc = 0 if (st == 3 and q.get('sigrc') == '0') else (int(q.get('herr', 0)) or int(q.get('sigrc', 1)) or 1)
             sig = q.get('sig') if rc == 0 else None
+            if rc == 0 and (q.get('sig2rc') or q.get('sig2same') == '0'):
+                r.viol('async:%s:second-getSignature-differs' % transport, 'KSI_AsyncHandle_getSignature called a second time on the completed handle (level %d): %s' % (L, 'rc=%s' % q.get('sig2rc') if q.get('sig2rc') else 'another signature than the first time'), 'level=%d' % L)
+            elif rc == 0:
+                r.count('second_getSignature_same')
             if st == 5 and (q.get('errsigrc') == '0' or q.get('errresp')):
                 r.viol('async:%s:error-state-handle-offers-signature' % transport, 'request ended in the error state (behaviour %s) but the handle hands out a signature / response: errsigrc=%s errresp=%s' % (srv.behaviour, q.get('errsigrc'), q.get('errresp')), '')
             if rc == 0 and srv.behaviour in HONEST and rng.random() < 0.3:
